@@ -56,6 +56,18 @@ impl Conc {
             }
         }
     }
+    pub fn abs_of_str(&self, s: &str) -> Vec<String> {
+        match self.names.abs_path(s) {
+            None => vec![format!("!raw:{s}")],
+            Some(p) => {
+                if p.len() >= self.prefix.len() && p[..self.prefix.len()] == self.prefix[..] {
+                    p[self.prefix.len()..].to_vec()
+                } else {
+                    vec![format!("!outside:{s}")]
+                }
+            }
+        }
+    }
     pub fn abs_of(&self, pth: &VfsPath) -> Vec<String> {
         match self.names.abs_path(pth.as_str()) {
             None => vec![format!("!raw:{}", pth.as_str())],
